@@ -246,6 +246,8 @@ def parse_tagged(out_path, tag):
             if not line.startswith(prefix):
                 continue
             line = line.rstrip("\n")
+            if line.endswith('">>  FALSE') or line.endswith('">>  TRUE'):
+                line = line[:line.rindex('">>') + 3]
             if not line.endswith('">>'):
                 raise ToolError("truncated %s line in %s" % (tag, out_path))
             body = line[len(prefix):-3]
